@@ -6,3 +6,5 @@ import RB.Model.Termination
 import RB.Model.Sched
 import RB.Util.SchedDriver
 import RB.Proofs.C04
+import RB.Proofs.C10
+import RB.Proofs.C11
